@@ -109,6 +109,59 @@ func runC12(c *Collector, r *Rng, thorough bool) {
 			}
 		}
 	}
+	// the caller's Headers are a template: SignHashEnvelope leaves them as they were, also when the maps are empty but
+	// not nil (NewSign1Message().Headers), and the next envelope signed from the same template carries nothing of the
+	// previous one
+	for _, tmpl := range []cose.Headers{{Protected: cose.ProtectedHeader{}, Unprotected: cose.UnprotectedHeader{}}, cose.NewSign1Message().Headers, {Protected: cose.ProtectedHeader{int64(4): []byte("k")}}} {
+		before := fmt.Sprint(len(tmpl.Protected), len(tmpl.Unprotected), tmpl.Protected == nil, tmpl.Unprotected == nil)
+		o1, e1 := cose.SignHashEnvelope(nil, &spySigner{alg: -7, kind: SOk, sig: []byte{1}}, tmpl, cose.HashEnvelopePayload{HashAlgorithm: cose.AlgorithmSHA256, HashValue: make([]byte, 32), Location: "first", PreimageContentType: "a/b"})
+		after := fmt.Sprint(len(tmpl.Protected), len(tmpl.Unprotected), tmpl.Protected == nil, tmpl.Unprotected == nil)
+		o2, e2 := cose.SignHashEnvelope(nil, &spySigner{alg: -35, kind: SOk, sig: []byte{2}}, tmpl, cose.HashEnvelopePayload{HashAlgorithm: cose.AlgorithmSHA384, HashValue: make([]byte, 48)})
+		c.Eval("template-headers", before, true)
+		if before != after {
+			c.Fail("C12/caller-maps-modified", fmt.Sprintf("SignHashEnvelope wrote into the caller's header maps: %s before, %s after (len protected, len unprotected, nil, nil)", before, after), map[string]any{"template": before})
+		} else if e1 != nil || e2 != nil {
+			c.Fail("C12/template-reuse-refused", fmt.Sprintf("two envelopes signed from one template: %v / %v", e1, e2), map[string]any{"template": before})
+		} else if w, err := refParseFull(o2); err == nil {
+			if pm, err := refParseFull(w.Kids[0].Kids[0].Str); err == nil {
+				for q := 0; q+1 < len(pm.Kids); q += 2 {
+					if pm.Kids[q].Maj == 0 && (pm.Kids[q].Val == 259 || pm.Kids[q].Val == 260) {
+						c.Fail("C12/caller-maps-modified", fmt.Sprintf("the second envelope signed from the same template carries parameter %d of the first one: %x", pm.Kids[q].Val, o2), map[string]any{"template": before, "first": hx(o1)})
+					}
+				}
+			}
+		}
+	}
+	// a signer that uses the library itself before it reads what it was handed (signing an audit record as another hash
+	// envelope, verifying one): what it then reads is still the structure of its own envelope
+	for i := 0; i < 10; i++ {
+		other := func() {
+			cose.SignHashEnvelope(nil, &spySigner{alg: -7, kind: SOk, sig: []byte{9}}, cose.Headers{Protected: cose.ProtectedHeader{cose.HeaderLabelAlgorithm: cose.AlgorithmES256, int64(4): []byte("audit")}},
+				cose.HashEnvelopePayload{HashAlgorithm: cose.AlgorithmSHA512, HashValue: make([]byte, 64), Location: "audit-log"})
+			cose.VerifyHashEnvelope(&spyVerifier{alg: -7}, unhex("d28447a201260119010220a0f6"))
+		}
+		hv := r.Bytes(32)
+		sg := &spySigner{alg: -7, kind: SOk, sig: []byte{1, 2}, before: other}
+		out, err := cose.SignHashEnvelope(nil, sg, cose.Headers{Protected: cose.ProtectedHeader{cose.HeaderLabelAlgorithm: cose.AlgorithmES256}}, cose.HashEnvelopePayload{HashAlgorithm: cose.AlgorithmSHA256, HashValue: hv})
+		c.Eval("reentrant-signer", fmt.Sprint(i), true)
+		if err != nil || len(sg.calls) != 1 {
+			continue
+		}
+		if w, perr := refParseFull(out); perr == nil {
+			want := refArray(refTstr("Signature1"), refBstr(w.Kids[0].Kids[0].Str), refBstr(nil), refBstr(hv))
+			if !bytes.Equal(want, sg.calls[0]) {
+				c.Fail("C12/signed-bytes-differ", fmt.Sprintf("a signer that used the library before reading its input was handed %x, the structure of its envelope is %x", trimTo(sg.calls[0], 80), trimTo(want, 80)), map[string]any{"out": hx(out)})
+			}
+		}
+		vf := &spyVerifier{alg: -7, before: other}
+		if _, err := cose.VerifyHashEnvelope(vf, out); err == nil && len(vf.calls) == 1 {
+			w, _ := refParseFull(out)
+			want := refArray(refTstr("Signature1"), refBstr(w.Kids[0].Kids[0].Str), refBstr(nil), refBstr(hv))
+			if !bytes.Equal(want, vf.calls[0].content) {
+				c.Fail("C12/signed-bytes-differ", "a verifier that used the library before reading its input was handed other bytes than the structure of the envelope", map[string]any{"out": hx(out)})
+			}
+		}
+	}
 	// digest length x hash algorithm, both directions, against the registered digest sizes (SHA-256: 32, SHA-384: 48,
 	// SHA-512: 64 octets)
 	for _, ha := range []struct {
@@ -547,6 +600,42 @@ func runC13(c *Collector, r *Rng, thorough bool) {
 			op, obs, _, _, _ = execEncUnprot(cose.UnprotectedHeader(m))
 			addCase(c, "encode/label-kinds", op, obs, true)
 		}()
+	}
+	// ---- one label under two Go integer kinds, for every label around the small-integer and width boundaries ----
+	for _, l := range []int64{0, 1, 7, 8, 15, 16, 23, 24, 31, 32, 33, 62, 63, 64, 65, 66, 100, 127, 128, 129, 255, 256, 257, 1000, 65535, 65536} {
+		for _, protected := range []bool{true, false} {
+			var sps []any
+			for _, sp := range spell {
+				if k, ok := sp(l); ok {
+					sps = append(sps, k)
+				}
+			}
+			bad := ""
+			for a := 0; a < len(sps) && bad == ""; a++ {
+				for b := a + 1; b < len(sps) && bad == ""; b++ {
+					v := any(int64(1))
+					if l == 4 || l == 5 || l == 6 || l == 9 || l == 12 {
+						v = []byte{1}
+					} else if l == 2 || l == 7 || l == 11 {
+						continue
+					}
+					m := map[any]any{sps[a]: v, sps[b]: v}
+					var err error
+					if protected {
+						_, err = cose.ProtectedHeader(m).MarshalCBOR()
+					} else {
+						_, err = cose.UnprotectedHeader(m).MarshalCBOR()
+					}
+					if err == nil {
+						bad = fmt.Sprintf("%T and %T", sps[a], sps[b])
+					}
+				}
+			}
+			c.Eval(fmt.Sprintf("label-twice-by-spelling/protected=%v", protected), fmt.Sprint(l), true)
+			if bad != "" {
+				c.Fail("C13/duplicate-label-encoded", fmt.Sprintf("label %d present twice (as %s) is accepted by the encoder", l, bad), map[string]any{"label": l, "protected": protected})
+			}
+		}
 	}
 	// ---- duplicates by spelling ----
 	for _, pair := range [][2]any{{int64(42), int8(42)}, {int8(42), uint16(42)}, {int32(1000), uint32(1000)}, {int(1), int64(1)}, {uint(5), int(5)}} {
